@@ -55,6 +55,7 @@ type Config struct {
 	PageSize    int `json:"page_size"`
 	AutoVacuum  int `json:"auto_vacuum"`   // 0 none, 1 full, 2 incremental
 	AppAutoCkpt int `json:"app_autockpt"`  // application's wal_autocheckpoint
+	AppCachePages int `json:"app_cache_pages,omitempty"` // application page cache (small: transactions spill uncommitted frames into the WAL)
 	Tables      int `json:"tables"`        // initial tables
 	InitRows    int `json:"init_rows"`     // rows inserted before litestream starts
 	InitRowSize int `json:"init_row_size"` //
@@ -110,6 +111,10 @@ type Fault struct {
 	Call int    `json:"call"` // global client call index (0-based)
 	Kind string `json:"kind"` // fail_before | fail_after | short_upload | short_read | mid_error | iter_error
 	Arg  int64  `json:"arg,omitempty"`
+	// On/N: a storm restricted to one call kind (list|open|write|delete): armed at
+	// call index Call, it hits the next N calls of that kind and no other call.
+	On string `json:"on,omitempty"`
+	N  int    `json:"n,omitempty"`
 }
 
 // Op is one operation of a program. Ops are total: an op whose precondition
